@@ -26,10 +26,13 @@ fn show_res<T: std::fmt::Display>(r: gmsol_sdk::Result<T>) -> String {
     }
 }
 fn mk_dec(m: &str, s: &str) -> Option<Decimal> {
+    let neg_zero = m == "-0";
     let m: i128 = m.parse().ok()?;
     let s: u32 = s.parse().ok()?;
     if m.unsigned_abs() > MAX_REPR || s > 28 { return None; }
-    Some(Decimal::from_i128_with_scale(m, s))
+    let mut d = Decimal::from_i128_with_scale(m, s);
+    if neg_zero { d.set_sign_negative(true); } // the negative zero rust_decimal can represent
+    Some(d)
 }
 
 fn exec_inner(t: &[&str]) -> Option<String> {
@@ -200,7 +203,73 @@ fn gen_dec8(r: &mut Rng) -> u8 {
         _ => r.range(0, 28) as u8,
     }
 }
+/// Which branch of fixed.rs / Decimal::rescale a request exercises (for the coverage statistics;
+/// computed from the request with exact integers, independently of the implementation).
+fn branches(req: &str, resp: &str) -> Vec<String> {
+    let t: Vec<&str> = req.split(' ').collect();
+    let mut b = vec![];
+    let big = |x: &str| x.trim_start_matches('-').parse::<num_bigint::BigUint>().unwrap();
+    let lim = num_bigint::BigUint::from(MAX_REPR);
+    match t[1] {
+        "u2d" | "s2d" | "uv2d" | "sv2d" | "rtu" | "rts" => {
+            let n = big(t[2]);
+            let dec: i64 = if t.len() > 3 { t[3].parse().unwrap() } else { 20 };
+            if t[2].starts_with('-') { b.push("to_decimal.negative".into()); }
+            if n > lim {
+                let sd = n.to_string().len() as i64 - 1 - 27;
+                b.push(if dec < sd { "to_decimal.big.scale_lt_diff_none" } else if dec - sd > 28 { "to_decimal.big.reduced_scale_gt_28_none" } else { "to_decimal.big.truncated_ok" }.into());
+            } else {
+                b.push(if dec > 28 { "to_decimal.small.scale_gt_28_none" } else { "to_decimal.small.ok" }.into());
+                if n == lim { b.push("to_decimal.at_2^96-1".into()); }
+            }
+        }
+        "ua2d" | "sa2d" | "rta" | "rtsa" => {
+            let dec: i64 = t[3].parse().unwrap();
+            if t[2].starts_with('-') { b.push("amount.negative".into()); }
+            b.push(if dec > 28 { if dec - 28 > 19 { "amount.gt_47_zero" } else { "amount.29_to_47_divided" } } else { "amount.le_28_plain" }.into());
+        }
+        _ => {}
+    }
+    if matches!(t[1], "d2a" | "d2v" | "d2sv" | "rescale") {
+        let m = big(t[2]); let s: u32 = t[3].parse().unwrap(); let dec: u32 = t[4].parse().unwrap();
+        let zero = num_bigint::BigUint::from(0u8);
+        if t[2] == "-0" { b.push("decimal.negative_zero".into()); }
+        if s == 0 { b.push("decimal.scale_0".into()); }
+        if s == 28 { b.push("decimal.scale_28".into()); }
+        if m != zero && (&m % 10u8) == zero { b.push("decimal.trailing_zeros".into()); }
+        b.push(if s == dec { "rescale.equal_scale".to_string() }
+            else if m == zero { if dec > 28 { "rescale.zero_clamped_to_28".into() } else { "rescale.zero".into() } }
+            else if s > dec {
+                let p = num_bigint::BigUint::from(10u8).pow(s - dec);
+                let q = &m / &p;
+                let first_dropped = (&m / num_bigint::BigUint::from(10u8).pow(s - dec - 1)) % 10u8;
+                if q == zero && first_dropped < num_bigint::BigUint::from(5u8) { "rescale.down.to_zero".into() }
+                else if first_dropped >= num_bigint::BigUint::from(5u8) { "rescale.down.round_up".into() } else { "rescale.down.no_round".into() }
+            } else {
+                let full = &m * num_bigint::BigUint::from(10u8).pow(dec - s) <= lim;
+                if full { "rescale.up.full".into() } else if dec > 28 { "rescale.up.stopped_target_gt_28".into() } else { "rescale.up.stopped".into() }
+            });
+        if t[1] != "rescale" {
+            b.push(format!("{}.{}", t[1], match resp { "err TooBig" => if dec.saturating_sub(s) > 38 + 28 { "err_toobig_pow" } else { "err_toobig" }, "err Range" => if t[2].starts_with('-') { "err_range_negative" } else { "err_range_too_large" }, "err Scale" => "err_scale", x if x.starts_with("ok") => "ok", _ => "other" }));
+        }
+    }
+    b
+}
+
 fn gen_decimal(r: &mut Rng) -> (i128, u32) {
+    if r.chance(1, 5) {
+        // adversarial decimals: scale 0 / 28, magnitudes around 2^96-1, trailing zeros
+        let s = *r.pick(&[0u32, 0, 28, 28, 27, 1]);
+        let mag: u128 = match r.below(5) {
+            0 => MAX_REPR - r.below(2) as u128,
+            1 => (MAX_REPR / 10u128.pow(r.range(1, 27) as u32)) * 10u128.pow(r.range(0, 1) as u32),
+            2 => r.range(1, 999) as u128 * 10u128.pow(r.range(1, 25) as u32),
+            3 => 5 * 10u128.pow(r.range(0, 27) as u32),
+            _ => 0,
+        };
+        let m = if r.chance(1, 3) { -((mag % (MAX_REPR + 1)) as i128) } else { (mag % (MAX_REPR + 1)) as i128 };
+        return (m, s);
+    }
     let mag: u128 = match r.below(6) {
         0 => MAX_REPR - r.below(3) as u128,
         1 => 10u128.pow(r.range(0, 28) as u32) * r.range(1, 9) as u128 % (MAX_REPR + 1),
@@ -213,6 +282,11 @@ fn gen_decimal(r: &mut Rng) -> (i128, u32) {
 }
 
 fn gen_req(r: &mut Rng) -> String {
+    if r.chance(1, 60) {
+        // the negative zero (sign bit set, magnitude 0)
+        let op = *r.pick(&["d2a", "d2v", "d2sv", "rescale"]);
+        return format!("dec {op} -0 {} {}", r.range(0, 28), gen_dec8(r));
+    }
     match r.below(18) {
         0 | 1 => format!("dec u2d {} {}", gen_u128(r), gen_dec8(r)),
         2 => format!("dec s2d {} {}", gen_i128(r), gen_dec8(r)),
@@ -245,6 +319,7 @@ fn main() {
         let resp = exec(&req);
         let op = req.split(' ').nth(1).unwrap_or("?").to_string();
         out.stat(&format!("op.{op}"));
+        for b in branches(&req, &resp) { out.stat(&format!("branch.{b}")); }
         out.stat(if resp.starts_with("ok") { "resp.ok" } else if resp == "none" { "resp.none" }
                  else if resp == "panic" { "resp.panic" } else { "resp.err" });
         let nt = resp.starts_with("ok") && !resp.starts_with("ok 0");
